@@ -15,7 +15,7 @@ META = {
     "engines": ["crosshair", "pysym"],
     "level_text": "Bounded model checking of the real visitor and printers: every prop-test visitor method on stubbed children for every operator "
                   "token x NOT present/absent with a symbolic constant (expected class, operator and negation parity, incl. NOT !=); every "
-                  "comparison of a generator (11 operators x legal constant kinds x 11 object paths incl. quoted (also non-ASCII), indexed, reference and hash steps "
+                  "comparison of a generator (11 operators x legal constant kinds x 15 object paths incl. quoted (also non-ASCII, also followed by an index or [*]), indexed, reference and hash steps "
                   "x NOT) and every 3-atom boolean shape (AND/OR x 3 parenthesisations) and 3-observation shape (AND/OR/FOLLOWEDBY x 3 "
                   "parenthesisations x 4 qualifiers x 3 positions) through the real parser: the model tree must equal the generator's own tree, the "
                   "printed text must parse back to it and printing must be a fixed point; programmatic models with strings needing escapes; "
@@ -37,7 +37,7 @@ def obligations(tier):
         CH("visitor_negation_and_operator", H, "visitor_prop_tests", t, functions=FV[:7],
            bounds="7 visitor methods x every operator token x NOT flag (symbolic) x unbounded int constant"),
         CH("comparisons_roundtrip", H, "comparisons", t, mode="E1s", functions=FV + FP, stubs=[ANTLR],
-           bounds="22 (operator, constant kind) atoms x 11 object paths x NOT"),
+           bounds="22 (operator, constant kind) atoms x 15 object paths x NOT"),
         CH("boolean_structure", H, "boolean_structure", t, mode="E1s", functions=FV[7:9] + FP, stubs=[ANTLR],
            bounds="3 parenthesisations x AND/OR x AND/OR x atoms (%s x 4 x 4) x NOT" % ("8" if tier == "quick" else "22")),
         CH("observation_structure", H, "observation_structure", t, mode="E1s", functions=FV[9:12] + FP, stubs=[ANTLR],
